@@ -60,8 +60,8 @@ func runHistoryImpl(origin string, ops []M) []M {
 			} else {
 				opts := &webauthn.PublicKeyCredentialRequestOptions{Challenge: unhx(op["challenge"].(string)),
 					UserVerification: webauthn.UserVerificationRequirement(unhx(op["uv"].(string)))}
-				for _, id := range hexList(op["allow"]) {
-					opts.AllowCredentials = append(opts.AllowCredentials, webauthn.PublicKeyCredentialDescriptor{Type: "public-key", ID: id})
+				for i, id := range hexList(op["allow"]) {
+					opts.AllowCredentials = append(opts.AllowCredentials, webauthn.PublicKeyCredentialDescriptor{Type: descriptorType(op, i), ID: id})
 				}
 				cred := &webauthn.PublicKeyAssertionCredential{RawID: unhx(op["rawId"].(string)),
 					Response: webauthn.AuthenticatorAssertionResponse{ClientDataJSON: unhx(op["cdj"].(string)), AuthenticatorData: unhx(op["authData"].(string)),
